@@ -1,6 +1,7 @@
 package checks
 
 import (
+	"errors"
 	"fmt"
 	"net/http/httptest"
 	"strings"
@@ -19,6 +20,9 @@ type chainShape struct {
 	Split [3]int `json:"split"` // global, group, route middleware counts (sum = n-1)
 	Via   string `json:"via"`   // how route middleware is attached: "variadic" | "use" | "mixed"
 	Beh   string `json:"beh"`   // one behaviour code (letter) per handler
+	// Hooks: router-level hooks installed before serving: 'E' = OnError (writes nothing), 'P' = OnPanic (never fires:
+	// no handler panics); neither may change what the chain does
+	Hooks string `json:"hooks,omitempty"`
 }
 
 const abortCode = 403
@@ -84,6 +88,8 @@ func mkHandler(id int, b refmodel.Behaviour, log *[]refmodel.Event) rux.HandlerF
 			case refmodel.SRedispAbort:
 				c.Req.URL.Path = "/inner"
 				c.Router().HandleContext(c)
+			case refmodel.SAddErr:
+				c.AddError(errors.New("recorded"))
 			case refmodel.SWrite:
 				c.WriteString("x")
 			case refmodel.SProbe:
@@ -111,6 +117,12 @@ func runChain(sh chainShape, table map[byte]refmodel.Behaviour) (obs chainObs, b
 	}
 	g, p, rt := sh.Split[0], sh.Split[1], sh.Split[2]
 	r := rux.New()
+	if strings.Contains(sh.Hooks, "E") {
+		r.OnError = func(c *rux.Context) { _ = c.FirstError() }
+	}
+	if strings.Contains(sh.Hooks, "P") {
+		r.OnPanic = func(c *rux.Context) { c.AbortWithStatus(599) }
+	}
 	if sh.Via == "notfound" {
 		// the chain is: n-1 global middleware around the built-in not-found responder (no route matches)
 		regPanic = try(func() {
